@@ -1,0 +1,39 @@
+//go:build verif
+
+package vaxis
+
+// Hooks for property C04 (terminal state is restored on every exit path).
+// Add-only and guarded by the build tag "verif": read-only snapshots and one
+// fault injection; nothing here replaces a call in existing code.
+
+// VerifQuitCh returns the channel Close closes when it returns.
+func (vx *Vaxis) VerifQuitCh() <-chan bool { return vx.chQuit }
+
+// VerifKittyFlags returns the flags pushed with the kitty keyboard protocol.
+func (vx *Vaxis) VerifKittyFlags() int { return vx.kittyFlags }
+
+// VerifUserCursorStyle returns the cursor style the terminal reported at start-up.
+func (vx *Vaxis) VerifUserCursorStyle() int {
+	vx.mu.Lock()
+	defer vx.mu.Unlock()
+	return int(vx.userCursorStyle)
+}
+
+// VerifAppIDLast returns the application ID saved at start-up.
+func (vx *Vaxis) VerifAppIDLast() string {
+	vx.mu.Lock()
+	defer vx.mu.Unlock()
+	return string(vx.appIDLast)
+}
+
+// VerifDisableMouse returns the DisableMouse option as stored.
+func (vx *Vaxis) VerifDisableMouse() bool { return vx.disableMouse }
+
+// VerifPoisonCursorPos is a fault injection for the recover() path of the
+// input goroutine: after it, the next cursor position report (CSI r;c R) read
+// from the terminal makes handleSequence panic (send on a closed channel)
+// inside the input goroutine.
+func (vx *Vaxis) VerifPoisonCursorPos() {
+	atomicStore(&vx.reqCursorPos, true)
+	close(vx.chCursorPos)
+}
